@@ -39,7 +39,35 @@ type group struct {
 	depth    int // queue_limits.max_depth of the frame (0 = default)
 	room     int // free room the frame wants before every request
 	added    int // messages stored (and cancelled again) on this instance
+	rot      int // rotates the representatives of the header classes
 }
+
+// representatives of the header classes (RFC 7230: a field name is a token; a field value has no control byte except tab)
+var (
+	badValueReps = func() []string {
+		out := []string{"line\r\nbreak"}
+		for b := 0; b < 0x20; b++ {
+			if b != '\t' {
+				out = append(out, "v"+string(rune(b))+"w")
+			}
+		}
+		return append(out, "del\x7f", "\x7f", "end\n", "\rstart")
+	}()
+	badNameReps = func() []string {
+		out := []string{"Bad Name", "", " ", " X-Lead", "X-Trail ", "X-Ünï"}
+		for b := 0; b < 0x80; b++ {
+			c := byte(b)
+			tok := c >= '0' && c <= '9' || c >= 'A' && c <= 'Z' || c >= 'a' && c <= 'z' || strings.IndexByte("!#$%&'*+-.^_`|~", c) >= 0
+			if !tok && c != ' ' {
+				out = append(out, "X-A"+string(rune(b))+"b")
+			}
+		}
+		return out
+	}()
+	okHeaderReps = []map[string]string{
+		{"X-A": "1"}, {"X-A": "tab\there"}, {"X-Tok!#$%&'*+.^_`|~9": "v"}, {"X-A": "caf\u00e9 \u2603"}, {"X-A": ""}, {"X-A": " ~}|{"},
+	}
+)
 
 func onoff(b bool) string {
 	if b {
@@ -341,9 +369,14 @@ func (g *group) buildItem(fr Frame, kind string, prevIDs []string, dupq *int, nG
 	case "headers_over":
 		headers = map[string]string{"X-Fill": strings.Repeat("h", mh-6+1)}
 	case "header_bad_name":
-		headers = map[string]string{"Bad Name": "v"}
+		g.rot++
+		headers = map[string]string{badNameReps[g.rot%len(badNameReps)]: "v"}
 	case "header_bad_value":
-		headers = map[string]string{"X-Ok": "line\r\nbreak"}
+		g.rot++
+		headers = map[string]string{"X-Ok": badValueReps[g.rot%len(badValueReps)]}
+	case "ok", "ok_t":
+		g.rot++
+		headers = okHeaderReps[g.rot%len(okHeaderReps)]
 	case "bad_recv":
 		f["received_at"] = "yesterday"
 	case "bad_next":
